@@ -40,7 +40,7 @@ package util
 
 //@ chanmode Queue.depthChan mailbox
 //@ chanmode NewQueue:depthChan mailbox
-//@ spec RI(q *Queue) bool := q.depth == len(q.queue) && q.depthChan != nil && chlen(q.depthChan) == 1 && chval(q.depthChan) == q.depth && !closed(q.depthChan)
+//@ spec RI(q *Queue) bool := q.depth == len(q.queue) && q.depthChan != nil && alive(q.depthChan) && chlen(q.depthChan) == 1 && chval(q.depthChan) == q.depth && !closed(q.depthChan)
 
 //@ func NewQueue [C20]
 //@   modifies alloc()
